@@ -654,10 +654,20 @@ Varable failures: {var_failed}
 
     def _add2Varlist(self, varkeys):
         varliststr = getattr(self, 'VAR-LIST', '')
-        keys = [k for k in varliststr.split() if k in self.variables]
+        if len(varliststr) % 16 == 0:
+            # fixed-width fields: 16 character names have no separator
+            oldkeys = [
+                varliststr[i:i + 16].strip()
+                for i in range(0, len(varliststr), 16)
+            ]
+        else:
+            oldkeys = varliststr.split()
+        keys = [k for k in oldkeys if k in self.variables]
         newkeys = set(varkeys).difference(keys + ['ETFLAG', 'TFLAG'])
         for varkey in varkeys:
-            if varkey in newkeys:
+            # names longer than 16 characters cannot be listed (getVarlist
+            # prunes them) and would break the fixed-width layout
+            if varkey in newkeys and len(varkey) <= 16:
                 varliststr += varkey.ljust(16)
                 keys.append(varkey)
         setattr(self, 'NVARS', len(keys))
